@@ -29,7 +29,7 @@ HEADER_SHAPES = {
     "one": [{"name": "x-gen-%s", "value": ["v1"]}],
     "rep": [{"name": "x-gen-%s", "value": ["v1", "v2", "v1"]}],
     "mixed": [{"name": "X-Gen-%s-Mixed", "value": ["Value One"]}, {"name": "x-gen-%s-two", "value": ["a, b"]}],
-    "bin": [{"name": "x-gen-%s-bin", "value": ["AAEC/w", "/v8"]}],
+    "bin": [{"name": "x-gen-%s-bin", "value": ["AAEC/w", "/v8"]}, {"name": "X-Gen-%s-Cap-Bin", "value": ["AAECAwQF"]}, {"name": "x-gen-%s-up-BIN", "value": ["/w"]}],
     # the same name in response headers and trailers (values differ per block)
     "shared": [{"name": "X-Gen-Shared", "value": ["%s-1", "%s-2"]}],
 }
@@ -87,8 +87,43 @@ def errors(full):
 DATA = [("dempty", b""), ("dx", b"x"), ("dbin", b"\x00\xff\x80 text")]
 
 
+SUITE_ATTRS = {}
+
+DIRECTIVE_AXES = [
+    ("relevantProtocols", "p", ["PROTOCOL_CONNECT", "PROTOCOL_GRPC_WEB"]),
+    ("relevantHttpVersions", "v", ["HTTP_VERSION_1", "HTTP_VERSION_2"]),
+    ("relevantCodecs", "c", ["CODEC_PROTO", "CODEC_JSON"]),
+    ("relevantCompressions", "z", ["COMPRESSION_IDENTITY", "COMPRESSION_GZIP"]),
+]
+
+
+def gen_directive_suites():
+    """Suites that differ only in their suite-level relevant* lists: none, one entry, two entries, on one axis,
+    on every pair of axes and on all four; each holds the same two plain cases."""
+    combos = []
+    for i, (field, tag, vals) in enumerate(DIRECTIVE_AXES):
+        combos.append({field: vals[:1]})
+        combos.append({field: vals[1:]})
+        combos.append({field: list(vals)})
+        combos.append({field: list(reversed(vals))})
+        for field2, tag2, vals2 in DIRECTIVE_AXES[i + 1:]:
+            combos.append({field: list(vals), field2: list(vals2)})
+    combos.append({f: list(v) for f, _t, v in DIRECTIVE_AXES})
+    combos.append({})
+    for attrs in combos:
+        key = "dir-" + ("-".join("%s%d%s" % (t, len(attrs[f]), "r" if attrs[f] != v[:len(attrs[f])] and attrs[f] != v[1:] else ("b" if attrs[f] == v[1:] and len(attrs[f]) == 1 else ""))
+                                 for f, t, v in DIRECTIVE_AXES if f in attrs) or "none")
+        SUITE_ATTRS[key] = attrs
+        for cname, rdef in (("data", {"responseData": b64(b"x")}), ("err", {"error": {"code": "CODE_NOT_FOUND", "message": "nope"}})):
+            msgs = [{"@type": T + "UnaryRequest", "responseDefinition": rdef, "requestData": b64(b"req0")}]
+            yield key, {"request": {"testName": "unary/" + cname, "streamType": "STREAM_TYPE_UNARY", "requestMessages": msgs}}
+
+
 def gen_cases(level):
-    """Yields (suite_key, test_case_json). level: mini < quick < thorough."""
+    """Yields (suite_key, test_case_json). level: mini < quick < thorough; "dir": the suite-directive family only."""
+    if level == "dir":
+        yield from gen_directive_suites()
+        return
     full = level == "thorough"
     mini = level == "mini"
     hcs = header_combos(full)
@@ -226,7 +261,7 @@ def write_suites(work, level, tag="gen"):
     os.makedirs(d, exist_ok=True)
     for key, cases in suites.items():
         p = os.path.join(d, "gen_%s.yaml" % key.replace("-", "_"))
-        json.dump({"name": "Gen " + key, "testCases": cases}, open(p, "w"))
+        json.dump(dict({"name": "Gen " + key, "testCases": cases}, **SUITE_ATTRS.get(key, {})), open(p, "w"))
         files.append(p)
     return files, n, suites
 
@@ -253,7 +288,7 @@ def shape_of(name):
 
 def agreement(unit, work, tier, seed, repo, goenv):
     bindir = c01.build(repo, work, goenv)
-    passes = [("quick", QUICK_CONF)] if tier == "quick" else [("thorough", MID_CONF), ("mini", THOROUGH_CONF)]
+    passes = [("quick", QUICK_CONF), ("dir", MID_CONF)] if tier == "quick" else [("thorough", MID_CONF), ("mini", THOROUGH_CONF), ("dir", THOROUGH_CONF)]
     only = os.environ.get("VERIF_C02_ONLY")
     rep = {"evaluations": 0, "distinct_nontrivial": 0, "samples": [], "violations": [], "exhaustive": True, "outcomes": {}, "counters": {},
            "rule": "test-case shapes enumerated completely from a bounded grammar (stream type x request count x response data/error shape x error code/message/details x request-header/response-header/trailer shape), simplest first; one evaluation = one (shape x config case x peer pairing) permutation executed by the real binaries; non-trivial = distinct permutation name",
